@@ -5,6 +5,7 @@ package recordio
 import (
 	"errors"
 	"io"
+	"os"
 
 	"github.com/thomasjungblut/go-sstables/vrt"
 )
@@ -229,4 +230,83 @@ func H_C04_SeekNext() {
 	vTraceU(comp, "gotOff", gotOff)
 	m.Close()
 	vrt.Reach("seeknext/end")
+}
+
+// vAlignedWriter is the direct-I/O writer without O_DIRECT: the same FileWriter in block-aligned mode over the
+// same block-aligned buffered writer the DirectIOFactory returns, on a plain file and with a block of a few bytes
+// instead of 4096 (the model file system has no alignment requirement, and neither has a plain native file).
+// What direct I/O adds - the kernel refusing misaligned buffers - is outside; the block logic is what is checked.
+func vAlignedWriter(path string, comp, block int) (WriterI, error) {
+	f, err := os.OpenFile(path, os.O_WRONLY|os.O_CREATE, 0666)
+	if err != nil {
+		return nil, err
+	}
+	return newCompressedFileWriterWithFile(f, NewAlignedWriterBuf(f, make([]byte, block)), comp, true)
+}
+
+// H_C04_Aligned: block-aligned (direct-I/O style) writer → both readers. Everything after the last record is zero, the sequential reader ends with end-of-file after the written
+// records, the random-access reader finds each record at its offset.
+func H_C04_Aligned() {
+	fs := vrt.NewFS()
+	defer fs.Cleanup()
+	comp := []int{CompressionTypeNone, CompressionTypeSnappy}[vrt.Choose("comp", 2)]
+	nMax := 3
+	if vrt.Thorough() {
+		nMax = 4
+	}
+	recs := vRecords(nMax, 3)
+	block := []int{8, 12, 16, 32}[vrt.Choose("block", 4)]
+	rbuf := []int{5, 16}[vrt.Choose("rbuf", 2)]
+	p := fs.Path("f.rio")
+	w, err := vAlignedWriter(p, comp, block)
+	vrt.Assert(err == nil, "aligned/new-writer-no-error")
+	vrt.Assert(w.Open() == nil, "aligned/open-no-error")
+	var offs []uint64
+	for i := range recs {
+		off, err := w.Write(recs[i])
+		vrt.Assert(err == nil, "aligned/write-no-error")
+		offs = append(offs, off)
+	}
+	_, serr := w.WriteSync([]byte{1})
+	vrt.Assert(errors.Is(serr, DirectIOSyncWriteErr), "aligned/sync-write-rejected")
+	size := w.Size()
+	vrt.Assert(w.Close() == nil, "aligned/close-no-error")
+
+	file := fs.ReadFile(p)
+	// (the file is not always a whole number of blocks: a single write larger than the buffer goes to the file
+	// directly, unpadded - whether a direct-I/O file accepts that is the kernel's business and outside the claim)
+	vrt.Assert(uint64(len(file)) >= size && uint64(len(file)) < size+uint64(block), "aligned/file-ends-within-a-block-after-the-last-record")
+	if uint64(len(file)) > uint64(block) {
+		vrt.Reach("aligned/more-than-one-block")
+	}
+	zero := true
+	for i := int(size); i < len(file); i++ {
+		zero = vrt.And(zero, file[i] == 0)
+	}
+	vrt.Assert(zero, "aligned/tail-after-last-record-is-zero")
+	vrt.Trace("size", size)
+	vrt.Trace("len", uint64(len(file)))
+
+	r, err := NewFileReader(ReaderPath(p), ReaderBufferSizeBytes(rbuf))
+	vrt.Assert(err == nil, "aligned/new-reader-no-error")
+	vrt.Assert(r.Open() == nil, "aligned/reader-open-no-error")
+	for i := range recs {
+		got, err := r.ReadNext()
+		vrt.Assert(err == nil, "aligned/sequential-read-no-error")
+		vrt.Assert(vrt.SameBytes(got, recs[i]), "aligned/sequential-record-unchanged")
+	}
+	_, err = r.ReadNext()
+	vrt.Assert(errors.Is(err, io.EOF), "aligned/sequential-then-eof")
+	vrt.Assert(r.Close() == nil, "aligned/reader-close-no-error")
+
+	m, err := NewMemoryMappedReaderWithPath(p)
+	vrt.Assert(err == nil, "aligned/new-mmap-no-error")
+	vrt.Assert(m.Open() == nil, "aligned/mmap-open-no-error")
+	for i := len(recs) - 1; i >= 0; i-- {
+		got, err := m.ReadNextAt(offs[i])
+		vrt.Assert(err == nil, "aligned/random-access-no-error")
+		vrt.Assert(vrt.SameBytes(got, recs[i]), "aligned/random-access-record-unchanged")
+	}
+	vrt.Assert(m.Close() == nil, "aligned/mmap-close-no-error")
+	vrt.Reach("aligned/end")
 }
